@@ -59,6 +59,14 @@ func (c Const) Validate(v bytes.Bytes) {
 		return
 	}
 
+	if v.InQuotes() && c.nodeValue.InQuotes() {
+		// Two strings are compared by their decoded values: "a" and "\u0061"
+		// are the same JSON string.
+		if v.Unquote().String() == c.nodeValue.Unquote().String() {
+			return
+		}
+	}
+
 	if v.String() != c.nodeValue.String() {
 		panic(errors.Format(errors.ErrInvalidConst, c.nodeValue.String()))
 	}
